@@ -127,7 +127,10 @@ def job_tpv(job):
         cl['none_only_if'] = bool(allowed)
     else:
         if cont:
-            cl['fixes_domain'] = (not member(pc, v)) or (float(r.value) == float(v))
+            f32 = job.get('dtype') == 'float32' and pc.type != vz.ParameterType.DOUBLE
+            representable = (not f32) or all(float(np.float32(x)) == float(x) for x in pc.feasible_values)
+            if representable:       # float32 converter: claimed for float32-representable feasible values only
+                cl['fixes_domain'] = (not member(pc, v)) or (float(r.value) == float(v))
         else:
             want = pc.feasible_values[int(v)]
             cl['fixes_domain'] = r.value == want
@@ -377,6 +380,119 @@ def np_facts():
     return {'checked': ['clip', 'argmin', 'argmax', 'eye', 'where', 'isfinite', 'dtype', 'abs', 'flatten'], 'disagreements': [str(b) for b in bad[:5]]}, bool(bad)
 
 
+def enc(v):
+    if v is None:
+        return {'t': 'none', 'v': None}
+    if isinstance(v, bool):
+        return {'t': 'bool', 'v': v}
+    if isinstance(v, int):
+        return {'t': 'int', 'v': v}
+    if isinstance(v, float):
+        return {'t': 'float', 'v': repr(v)}
+    return {'t': 'str', 'v': str(v)}
+
+
+def _search_pcs():
+    return [
+        {'ptype': 'DISCRETE', 'feasible': [enc(0.1), enc(0.3)]},
+        {'ptype': 'DISCRETE', 'feasible': [enc(1.0 / 3), enc(2.0 / 3), enc(1.0)]},
+        {'ptype': 'DISCRETE', 'feasible': [enc(-2.5), enc(0.0), enc(4.0), enc(1e6)]},
+        {'ptype': 'INTEGER', 'bounds': [enc(0), enc(3)]},
+        {'ptype': 'INTEGER', 'bounds': [enc(-2), enc(40)]},
+        {'ptype': 'INTEGER', 'bounds': [enc(16777216), enc(16777221)]},
+        {'ptype': 'INTEGER', 'bounds': [enc(16777217), enc(16777223)]},
+        {'ptype': 'DOUBLE', 'bounds': [enc(0.1), enc(0.3)]},
+        {'ptype': 'DOUBLE', 'bounds': [enc(-7.5), enc(2.25)]},
+        {'ptype': 'DOUBLE', 'bounds': [enc(10.0), enc(10.0)]},
+        {'ptype': 'DOUBLE', 'bounds': [enc(1e-10), enc(1e-8)], 'scale': 'LOG'},
+        {'ptype': 'DOUBLE', 'bounds': [enc(0.5), enc(64.0)], 'scale': 'REVERSE_LOG'},
+        {'ptype': 'CATEGORICAL', 'feasible': [enc('a'), enc('b'), enc('c')]},
+    ]
+
+
+def _values_of(pc):
+    if pc.type == vz.ParameterType.CATEGORICAL:
+        return list(pc.feasible_values)
+    if pc.type == vz.ParameterType.DOUBLE:
+        lo, hi = pc.bounds
+        return [lo, hi, (lo + hi) / 2, lo + (hi - lo) / 3]
+    return [x for x in pc.feasible_values][:8]
+
+
+def search(kind):
+    """bounded native search used when a proof query is open (DESIGN 2.5 model query, done natively): a small family of parameter
+    definitions x converter options x values; returns the first failing instance per clause and parameter type"""
+    import itertools
+    found, runs = {}, 0
+    with np.errstate(all='ignore'):
+        if kind in ('tpv', 'roundtrip'):
+            for spec, mdi, scale, onehot, pad, dtype in itertools.product(_search_pcs(), (0, 10, 'inf'), (False, True), (False, True), (True, False),
+                                                                          ('float32', 'float64')):
+                base = {'pc': spec, 'dtype': dtype, 'opts': {'max_discrete_indices': mdi, 'scale': scale, 'onehot_embed': onehot, 'pad_oovs': pad}}
+                pc = make_pc(spec)
+                if kind == 'tpv':
+                    try:
+                        _, conv, _ = make_converter(base)
+                    except Refused:
+                        continue
+                    if conv._getter_spec.type == core.NumpyArraySpecType.CONTINUOUS:
+                        vs = [float(x) for x in _values_of(pc)]
+                        lo, hi = min(vs), max(vs)
+                        vs += [lo - 1.0, hi + 1.0, (lo + hi) / 2, 1e30, -1e30, float('nan'), float('inf')]
+                    else:
+                        n = len(pc.feasible_values)
+                        vs = list(range(-n - 1, n + 2))
+                    jobs = [dict(base, kind='tpv', value=enc(v)) for v in vs]
+                else:
+                    if dtype == 'float32':
+                        continue        # the exact round trip is claimed for float64 converters
+                    jobs = [dict(base, kind='roundtrip', raw=enc(v)) for v in _values_of(pc)]
+                for job in jobs:
+                    runs += 1
+                    try:
+                        out, bad = JOBS[job['kind']](job)
+                    except Refused as r:
+                        if r.bad:
+                            found.setdefault('refuses_only_nonpositive_log_bounds.' + spec['ptype'], {'job': job, 'output': {'constructor_raised': str(r)}})
+                        continue
+                    if bad:
+                        cls = out.get('clauses') or {'no_raise': False}
+                        for c, ok in cls.items():
+                            if not ok:
+                                found.setdefault('%s.%s' % (c, spec['ptype']), {'job': job, 'output': out})
+                        if 'raised' in out and not out.get('clauses'):
+                            found.setdefault('no_raise.' + spec['ptype'], {'job': job, 'output': out})
+        elif kind == 'onehot':
+            for n, pad in itertools.product((1, 2, 3), (True, False)):
+                D = n + (1 if pad else 0)
+                jobs = [{'kind': 'onehot', 'n': n, 'pad_oovs': pad, 'indices': list(range(D))}]
+                # arbitrary blocks: every column in turn is the row maximum (incl. the out-of-vocabulary column), ties, negatives
+                rows = [[(1.0 if k == c else 0.0) for k in range(D)] for c in range(D)] + [[-1.0 - k for k in range(D)], [0.5] * D]
+                jobs.append({'kind': 'onehot', 'n': n, 'pad_oovs': pad, 'block': [[enc(x) for x in r] for r in rows]})
+                for job in jobs:
+                    runs += 1
+                    out, bad = job_onehot(job)
+                    if bad:
+                        for c, ok in (out.get('clauses') or {'no_raise': False}).items():
+                            if not ok:
+                                found.setdefault(c, {'job': job, 'output': out})
+        elif kind == 'scaler':
+            for spec in _search_pcs():
+                if spec['ptype'] != 'DOUBLE':
+                    continue
+                for scale in (None, 'LINEAR'):
+                    lo, hi = dec(spec['bounds'][0]), dec(spec['bounds'][1])
+                    for t in (0.0, 0.25, 1.0):
+                        job = {'kind': 'scaler', 'pc': dict(spec, scale=scale), 'x': enc(lo + t * (hi - lo)), 'y': enc(hi), 's': enc(t)}
+                        runs += 1
+                        out, bad = job_scaler(job)
+                        if bad:
+                            for c, ok in (out.get('clauses') or {}).items():
+                                if not ok:
+                                    found.setdefault('%s.%s' % (c, 'LINEAR' + ('.single_point' if lo == hi else '')), {'job': job, 'output': out})
+    return {'kind': kind, 'runs': runs, 'found': found}, bool(found)
+
+
 JOBS = {'tpv': job_tpv, 'roundtrip': job_roundtrip, 'labels': job_labels, 'scaler': job_scaler, 'onehot': job_onehot}
 
 
@@ -387,6 +503,8 @@ def main():
         res, bad = findings()
     elif a == 'standin_logscale':
         res, bad = standin_logscale(sys.argv[2] if len(sys.argv) > 2 else 'quick')
+    elif a == 'search':
+        res, bad = search(sys.argv[2])
     elif a == 'np_facts':
         res, bad = np_facts()
     else:
